@@ -1983,24 +1983,13 @@ class ExpressionEvaluator(Parser):
                     base = 8
 
             # Strip suffix (if present)
+            # A suffix combines u/U and l/L/ll/LL in either order.
             suffix = None
-            suffixes = [
-                "ull",
-                "ULL",
-                "ul",
-                "UL",
-                "ll",
-                "LL",
-                "u",
-                "U",
-                "l",
-                "L",
-            ]
-            for s in suffixes:
-                if value.endswith(s):
-                    suffix = s
-                    value = value[: -len(s)]
-                    break
+            suffixes = ["u", "l", "ll", "ul", "lu", "ull", "llu"]
+            stripped = value.rstrip("uUlL")
+            if value[len(stripped) :].lower() in suffixes:
+                suffix = value[len(stripped) :]
+                value = stripped
 
             # Convert to decimal and then to integer with correct sign
             # Preprocessor always uses 64-bit arithmetic!
